@@ -33,6 +33,88 @@ def _aliases(fdef, mod):
     return out
 
 
+BUFFERS = {'self.molecules': 'L', 'self.molecules_per_cell': 'D'}
+
+
+def buffer_types(fdef):
+    """Resolves what a local expression of the iterator denotes in terms of the two molecule buffers: a set of (kind, base) with kind
+    'D' (the per-cell dictionary of lists), 'L' (one list of buffered molecules), 'M' (a buffered molecule), ('I', T) an iterable of T,
+    ('P', T) a (key/index, T) pair.  Names are resolved through every binding in the function (assignments, loop targets), so a loop
+    over `buffers = (self.molecules,)` / `self.molecules_per_cell.values()` types its variable as a molecule list of either buffer."""
+    binds = {}
+    for n in walk_no_nested(fdef):
+        if isinstance(n, ast.Assign) and len(n.targets) == 1 and isinstance(n.targets[0], ast.Name):
+            binds.setdefault(n.targets[0].id, []).append(('val', n.value))
+        elif isinstance(n, ast.For):
+            t = n.target
+            if isinstance(t, ast.Name):
+                binds.setdefault(t.id, []).append(('elem', n.iter))
+            elif isinstance(t, ast.Tuple) and len(t.elts) == 2 and isinstance(t.elts[1], ast.Name):
+                binds.setdefault(t.elts[1].id, []).append(('second', n.iter))
+
+    def elem(ts):
+        out = set()
+        for k, b in ts:
+            if k == 'L':
+                out.add(('M', b))
+            elif isinstance(k, tuple) and k[0] == 'I':
+                out.add((k[1], b))
+        return out
+
+    def second(ts):
+        out = set()
+        for k, b in elem(ts):
+            if isinstance(k, tuple) and k[0] == 'P':
+                out.add((k[1], b))
+        return out
+
+    def typeof(e, depth=0):
+        if depth > 8:
+            return set()
+        t = src(e)
+        if t in BUFFERS:
+            return {(BUFFERS[t], t)}
+        if isinstance(e, ast.Name):
+            out = set()
+            for how, v in binds.get(e.id, []):
+                tv = typeof(v, depth + 1)
+                out |= tv if how == 'val' else elem(tv) if how == 'elem' else second(tv)
+            return out
+        if isinstance(e, ast.Subscript):
+            out = set()
+            for k, b in typeof(e.value, depth + 1):
+                if k == 'D':
+                    out.add(('L', b))
+                elif k == 'L' and not isinstance(e.slice, ast.Slice):
+                    out.add(('M', b))
+                elif k == 'L':
+                    out.add(('L', b))
+            return out
+        if isinstance(e, (ast.Tuple, ast.List)):
+            return {(('I', k), b) for x in e.elts for k, b in typeof(x, depth + 1)}
+        if isinstance(e, ast.Call):
+            f_ = e.func
+            if isinstance(f_, ast.Attribute) and f_.attr in ('values', 'items') and not e.args:
+                out = set()
+                for k, b in typeof(f_.value, depth + 1):
+                    if k == 'D':
+                        out.add((('I', 'L'), b) if f_.attr == 'values' else (('I', ('P', 'L')), b))
+                return out
+            name = dotted(f_) or ''
+            if name == 'enumerate' and e.args:
+                return {(('I', ('P', k2)), b) for k2, b in elem(typeof(e.args[0], depth + 1))}
+            if name in ('list', 'tuple', 'iter', 'reversed', 'sorted') and e.args:
+                return {(('I', k2), b) if k2 != 'M' else ('L', b) for k2, b in elem(typeof(e.args[0], depth + 1))}
+            if name.endswith('chain.from_iterable') and e.args:
+                return {(('I', k2), b) if k2 != 'M' else ('L', b) for k2, b in elem(elem(typeof(e.args[0], depth + 1)))}
+            if name.endswith('chain') and e.args:
+                return {(('I', k2), b) if k2 != 'M' else ('L', b) for a in e.args for k2, b in elem(typeof(a, depth + 1))}
+            if isinstance(f_, ast.Attribute) and f_.attr == 'pop':
+                return {('M', b) for k, b in typeof(f_.value, depth + 1) if k == 'L'}
+        return set()
+    return typeof
+
+
 def removal_sites(fdef):
     """All `X.pop(E)` / `del X[E]` with a non-constant index inside a for loop -> (loop, container expr, index expr, node)."""
     out = []
@@ -138,7 +220,12 @@ def r1(ctx):
                      ('the selection is conditional per element, so unselected elements between the first and last selected index are removed as well' if conditional
                       else 'every element is selected, the range is the whole selection'), key=f'removal:{src(t.value)}',
                      what=f'range deletion over a non-contiguous selection ({nm})')
-    ctx.need('C07-R1', n, 2, 'index-based removals in the ejection loops')
+    ty = buffer_types(f)
+    covered = {b for loop, cont, idx, node in sites for k, b in ty(cont) if k == 'L'} | \
+              {b for d in walk_no_nested(f) if isinstance(d, ast.Delete) for t in d.targets if isinstance(t, ast.Subscript) and isinstance(t.slice, ast.Slice) for k, b in ty(t.value) if k == 'L'}
+    ctx.need('C07-R1', n, 1, 'index-based removals in the ejection loops')
+    if covered != set(BUFFERS):
+        raise AnalysisError(f'C07-R1: ejection removals cover the buffers {sorted(covered)}, expected both {sorted(BUFFERS)} (idiom not recognised)')
 
 
 def _selection_provenance(f, L, cont, alias):
@@ -201,6 +288,9 @@ def _events_of(node, state):
         if isinstance(v, ast.Call) and isinstance(v.func, ast.Attribute) and v.func.attr == 'append' and v.args \
                 and _is_frag_molecule_ctor(v.args[0]):
             ev.append(('new', src(v.func.value)))
+        elif isinstance(v, ast.Call) and isinstance(v.func, ast.Attribute) and v.func.attr == 'append' and len(v.args) == 1 and isinstance(v.args[0], ast.Name) \
+                and src(v.func.value).split('[')[0] in BUFFERS:
+            ev.append(('place', v.args[0].id))
     return ev
 
 
@@ -282,6 +372,9 @@ def r2(ctx):
                 consumed.append('joined')
             elif kind == 'new':
                 consumed.append('new-molecule')
+            elif kind == 'place' and x in pending:
+                consumed.append('new-molecule')
+                pending.discard(x)
         if pending:
             consumed.append('LOST(molecule built but never yielded)')
         if len(consumed) != 1 or consumed[0].startswith('LOST'):
@@ -342,7 +435,7 @@ def r3(ctx):
     for d in walk_no_nested(f):
         if isinstance(d, ast.Delete) and any(isinstance(t, ast.Subscript) and isinstance(t.slice, ast.Slice) for t in d.targets):
             t = [t for t in d.targets if isinstance(t, ast.Subscript) and isinstance(t.slice, ast.Slice)][0]
-            if alias.get(src(t.value), src(t.value)).split('[')[0] not in ('self.molecules', 'self.molecules_per_cell'):
+            if not any(k == 'L' for k, b in buffer_types(f)(t.value)):
                 continue
             copies = [a for a in walk_no_nested(f) if isinstance(a, ast.Assign) and isinstance(a.targets[0], ast.Name) and src(a.value) == src(t) and a.lineno < d.lineno]
             ok = False
@@ -356,38 +449,41 @@ def r3(ctx):
             n += 1
             ctx.emit('C07-R3', ok, MOLITER, d, f'molecules removed by del {src(t)[:50]} are ' + ('copied first, then each finalised and yielded' if ok else 'NOT all finalised and yielded'),
                      key=f'pop-then-yield:{src(t.value)}')
-    ctx.need('C07-R3', n, 2, 'pop sites')
+    ty = buffer_types(f)
+    covered = {b for loop, cont, idx, node in removal_sites(f) for k, b in ty(cont) if k == 'L'} | \
+              {b for d in walk_no_nested(f) if isinstance(d, ast.Delete) for t in d.targets if isinstance(t, ast.Subscript) and isinstance(t.slice, ast.Slice) for k, b in ty(t.value) if k == 'L'}
+    ctx.need('C07-R3', n, 1, 'pop sites')
+    if covered != set(BUFFERS):
+        raise AnalysisError(f'C07-R3: ejection removals cover the buffers {sorted(covered)}, expected both {sorted(BUFFERS)} (idiom not recognised)')
     # (b) final drain
     main = _main_loop(f)
     after = f.body[f.body.index(main) + 1:]
     buffers = {'self.molecules': False, 'self.molecules_per_cell': False}
     for loopn in [x for s in after for x in walk_no_nested(s) if isinstance(x, ast.For)]:
-        it = src(loopn.iter)
-        en = _enumerate_loop(loopn)
         elem = None
-        container = None
-        if en:
-            elem, container = en[1], src(en[2])
-        elif isinstance(loopn.target, ast.Name):
-            elem, container = loopn.target, it
-        if elem is None or not isinstance(elem, ast.Name):
-            continue
-        container = alias.get(container, container)
-        base = container.split('[')[0]
-        if base not in buffers:
+        bases = set()
+        for k, b_ in ty(loopn.iter):
+            if k == 'L' and isinstance(loopn.target, ast.Name):
+                elem = loopn.target
+                bases.add(b_)
+            elif k == ('I', ('P', 'M')) and isinstance(loopn.target, ast.Tuple) and len(loopn.target.elts) == 2 and isinstance(loopn.target.elts[1], ast.Name):
+                elem = loopn.target.elts[1]
+                bases.add(b_)
+        if elem is None:
             continue
         ys = [x for x in walk_no_nested(loopn) if isinstance(x, (ast.Yield, ast.YieldFrom)) and x.value is not None and elem.id in names_in(x.value)]
         fz = [x for x in walk_no_nested(loopn) if isinstance(x, ast.Call) and src(x.func) == f'{elem.id}.__finalise__']
         # unconditional: yield statement directly in the loop body
         direct = any(isinstance(s, ast.Expr) and s.value in ys for s in loopn.body)
         if ys and fz and direct:
-            buffers[base] = True
+            for b_ in bases:
+                buffers[b_] = True
     for b, ok in buffers.items():
         ctx.emit('C07-R3', ok, MOLITER, main, f'after the read loop buffer {b} is ' + ('drained: every element finalised and yielded' if ok else 'NOT drained'),
                  key=f'final-drain:{b}')
     # (c) the drain is followed by a cache reset, and nothing yields after it
     # (d) per-cell ejection iterates every hash group
-    sel = [l for l in walk_no_nested(main) if isinstance(l, ast.For) and src(l.iter) == 'self.molecules_per_cell.items()']
+    sel = [l for l in walk_no_nested(main) if isinstance(l, ast.For) and any(k in (('I', 'L'), ('I', ('P', 'L'))) and b_ == 'self.molecules_per_cell' for k, b_ in ty(l.iter))]
     ctx.emit('C07-R3', len(sel) >= 1, MOLITER, main, 'the per-cell ejection visits every hash group of molecules_per_cell', key='eject-all-groups', nontrivial=False)
 
 
@@ -399,6 +495,8 @@ def r4(ctx):
     f = ctx.fn(MOLITER, FN)
     # selection condition
     n = 0
+    ty = buffer_types(f)
+    covered = set()
     for loop in [l for l in walk_no_nested(f) if isinstance(l, ast.For) and _enumerate_loop(l)]:
         i, elem, E = _enumerate_loop(loop)
         apps = [c for c in walk_no_nested(loop) if isinstance(c, ast.Call) and isinstance(c.func, ast.Attribute) and c.func.attr == 'append'
@@ -410,7 +508,10 @@ def r4(ctx):
         # innermost enclosing if
         mod = ix.module(MOLITER)
         p = mod.parent.get(mod.parent.get(a))
-        cond = p.test if isinstance(p, ast.If) else None
+        st_a = [b_ for b_ in walk_no_nested(loop) if isinstance(b_, ast.Expr) and b_.value is a]
+        rc = reach_conds(loop.body, st_a[0]) if st_a else None
+        cond = rc[0][0] if rc and len(rc) == 1 and rc[0][1] else None
+        covered |= {b_ for k_, b_ in ty(E) if k_ == 'L'}
         ok = cond is not None and isinstance(cond, ast.Call) and isinstance(cond.func, ast.Attribute) and cond.func.attr == 'can_be_yielded' \
             and isinstance(cond.func.value, ast.Name) and isinstance(elem, ast.Name) and cond.func.value.id == elem.id \
             and [src(x) for x in cond.args] == ['current_chrom', 'current_position']
@@ -421,7 +522,9 @@ def r4(ctx):
                and isinstance(x.op, ast.Sub)]
         okc = bool(dec) and isinstance(elem, ast.Name) and src(dec[0].value) == f'len({elem.id})'
         ctx.emit('C07-R4', okc, MOLITER, a, 'waiting_fragments is decremented by len(molecule) where the molecule is selected', key=f'waiting-counter:{src(E)}', nontrivial=False)
-    ctx.need('C07-R4', n, 2, 'ejection selection loops')
+    ctx.need('C07-R4', n, 1, 'ejection selection loops')
+    if covered != set(BUFFERS):
+        raise AnalysisError(f'C07-R4: ejection selection covers the buffers {sorted(covered)}, expected both {sorted(BUFFERS)} (idiom not recognised)')
     # provenance of the position
     asg = [s for s in walk_no_nested(f) if isinstance(s, ast.Assign) and isinstance(s.targets[0], ast.Tuple)
            and 'current_position' in names_in(s.targets[0])]
@@ -502,8 +605,15 @@ def r5(ctx):
         if isinstance(s, ast.Assign) and isinstance(s.value, ast.Call) and src(s.value) == f'{g.args.args[1].arg}.get_span()' \
                 and isinstance(s.targets[0], ast.Name):
             span_var = s.targets[0].id
-    if span_var is None:
+    coords = {}
+    for s in walk_no_nested(g):
+        if isinstance(s, ast.Assign) and isinstance(s.value, ast.Call) and src(s.value) == f'{g.args.args[1].arg}.get_span()' \
+                and isinstance(s.targets[0], ast.Tuple) and len(s.targets[0].elts) == 3 and all(isinstance(e, ast.Name) for e in s.targets[0].elts):
+            coords = {k: e.id for k, e in enumerate(s.targets[0].elts)}
+    if span_var is None and not coords:
         raise AnalysisError('_add_fragment: span of the added fragment is not read')
+    if span_var is not None:
+        coords = {k: f'{span_var}[{k}]' for k in range(3)}
 
     pcount = [0]
 
@@ -511,8 +621,8 @@ def r5(ctx):
         """On every path from the append to a normal exit, for both states of the old value (None / a coordinate): the last value stored in
         self.<attr> is the added fragment's coordinate (old None) resp. fn(old, coordinate).  Independent of how the update is written
         (conditional expression, if/else, either branch order)."""
-        want_none = f'{span_var}[{idx}]'
-        want_some = {f'{fn}({span_var}[{idx}], self.{attr})', f'{fn}(self.{attr}, {span_var}[{idx}])'}
+        want_none = coords[idx]
+        want_some = {f'{fn}({coords[idx]}, self.{attr})', f'{fn}(self.{attr}, {coords[idx]})'}
         problems = []
         site = None
         for old_none in (True, False):
@@ -548,7 +658,7 @@ def r5(ctx):
     for attr, fn, idx in (('spanStart', 'min', 1), ('spanEnd', 'max', 2)):
         ok, txt, s = check(attr, fn, idx)
         ctx.emit('C07-R5', ok, MOLECULE, s if s is not None else g,
-                 f'self.{attr}: ' + (f'{txt} on every path after the append' if ok else f'{txt} - is not {fn}(old, {span_var}[{idx}]) on every accepting path'), key=f'span-update:{attr}')
+                 f'self.{attr}: ' + (f'{txt} on every path after the append' if ok else f'{txt} - is not {fn}(old, {coords[idx]}) on every accepting path'), key=f'span-update:{attr}')
     ctx.counters['paths_enumerated'] += pcount[0]
     # add_fragment: True <=> _add_fragment was called
     h = ctx.fn(MOLECULE, 'Molecule.add_fragment')
